@@ -159,7 +159,15 @@ def case(ctx, i, tier):
         if k > n + 2:
             ctx.violation("C18:episode-bounded", steps=k)
             return
-        obs, rw, done, info = env.step(env.action_space.sample() * 0.3)
+        try:
+            obs, rw, done, info = env.step(env.action_space.sample() * 0.3)
+        except ValueError:
+            if any(math.isnan(env.exchange[c].mid_price) for c in env.Y.columns):
+                # an asset has no quote yet (price NaN on the first dates under markov
+                # reset, DESIGN 4.2-e): trading it is refused loudly (C13) - not C18's concern
+                ctx.cat("step-refused-asset-unquoted")
+                break
+            raise
         k += 1
     ctx.cat("episode")
     ctx.notes["steps"] = k
